@@ -268,3 +268,112 @@ fn w_mz_misuse() {
     }
 }
 
+
+// ------------------------------------------------------------------------------------------
+// tinfl_decompress pointer arithmetic and the checksum wrappers.
+use miniz_oxide::inflate::core as mzcore;
+use miniz_oxide::inflate::core::DecompressorOxide;
+use miniz_oxide::inflate::TINFLStatus;
+
+pub static mut T_IN_PTR: usize = 0;
+pub static mut T_IN_LEN: usize = 0;
+pub static mut T_OUT_PTR: usize = 0;
+pub static mut T_OUT_LEN: usize = 0;
+pub static mut T_OUT_POS: usize = 0;
+pub static mut T_FLAGS: u32 = 0;
+pub static mut T_RES: (i32, usize, usize) = (0, 0, 0);
+
+/// Contract stub for the core `decompress` as the C shim calls it: records the slices it was
+/// handed, touches exactly [out_pos, out_pos + written) and the offered input, returns any
+/// result within D1.
+pub fn decompress_recording(
+    _r: &mut DecompressorOxide,
+    in_buf: &[u8],
+    out: &mut [u8],
+    out_pos: usize,
+    flags: u32,
+) -> (TINFLStatus, usize, usize) {
+    unsafe {
+        T_IN_PTR = in_buf.as_ptr() as usize;
+        T_IN_LEN = in_buf.len();
+        T_OUT_PTR = out.as_ptr() as usize;
+        T_OUT_LEN = out.len();
+        T_OUT_POS = out_pos;
+        T_FLAGS = flags;
+    }
+    kani::assume(out_pos <= out.len());
+    let c: usize = kani::any();
+    let w: usize = kani::any();
+    kani::assume(c <= in_buf.len() && w <= out.len() - out_pos);
+    let s: i8 = kani::any();
+    kani::assume(s >= -4 && s <= 2);
+    let mut i = 0;
+    while i < w {
+        out[out_pos + i] = kani::any();
+        i += 1;
+    }
+    if !in_buf.is_empty() {
+        let _ = in_buf[in_buf.len() - 1];
+    }
+    if !out.is_empty() {
+        let _ = out[0]; // the window before out_pos may be read (match sources)
+    }
+    unsafe { T_RES = (s as i32, c, w) };
+    (TINFLStatus::from_i32(s as i32).unwrap(), c, w)
+}
+
+/// C17: tinfl_decompress reconstructs the output window from (start, next, remaining size) and
+/// writes back consumed/produced counts; every access stays inside the caller's ranges.
+#[kani::proof]
+#[kani::unwind(6)]
+#[kani::stub(mzcore::decompress, decompress_recording)]
+fn w_tinfl_decompress() {
+    unsafe {
+        let mut dec = tinfl_decompressor::default();
+        let r: *mut tinfl_decompressor = &mut dec;
+        let inb: [u8; 3] = kani::any();
+        let mut outb = [0u8; 6];
+        let n_in: usize = kani::any();
+        let pos: usize = kani::any();
+        let room: usize = kani::any();
+        kani::assume(n_in <= 3 && pos <= 6 && room <= 6 - pos);
+        // input range ends at the end of its object; the output window [start, next+room) too
+        let in_ptr = inb.as_ptr().add(3 - n_in);
+        let start = outb.as_mut_ptr().add(6 - pos - room);
+        let next = start.add(pos);
+        let mut in_size = n_in;
+        let mut out_size = room;
+        let flags: u32 = kani::any();
+        let rc = tinfl_decompress(r, in_ptr, &mut in_size, start, next, &mut out_size, flags);
+        // the core saw exactly the caller's ranges
+        assert!(T_IN_PTR == in_ptr as usize && T_IN_LEN == n_in);
+        assert!(T_OUT_PTR == start as usize && T_OUT_LEN == pos + room && T_OUT_POS == pos);
+        assert!(T_FLAGS == flags);
+        // results are passed through unchanged
+        assert!(rc == T_RES.0 && in_size == T_RES.1 && out_size == T_RES.2);
+        assert!(in_size <= n_in && out_size <= room);
+        kani::cover!(pos == 3 && room == 3 && n_in == 3);
+        kani::cover!(room == 0);
+    }
+}
+
+/// C16/C17: the C checksum entry points: null pointer => initial value; otherwise the Rust
+/// function on exactly (ptr, len), starting from the low 32 bits of the running value.
+#[kani::proof]
+#[kani::unwind(8)]
+fn w_mz_checksum_wrappers() {
+    unsafe {
+        let adler: u64 = kani::any();
+        let n: usize = kani::any();
+        assert!(mz_adler32(adler as libc::c_ulong, core::ptr::null(), n) == 1);
+        assert!(mz_crc32(adler as libc::c_ulong, core::ptr::null(), n) == 0);
+        let d: [u8; 2] = kani::any();
+        kani::assume((adler & 0xFFFF) < 65521 && ((adler >> 16) & 0xFFFF) < 65521);
+        let got = mz_adler32(adler as libc::c_ulong, d.as_ptr(), 2) as u64;
+        assert!(got == adler32_ref(adler as u32, &d) as u64);
+        assert!(got >> 32 == 0);
+        // zero-length buffer: the running value (truncated to 32 bits) comes back
+        assert!(mz_adler32(adler as libc::c_ulong, d.as_ptr(), 0) as u64 == (adler as u32) as u64);
+        kani::cover!(adler >> 32 != 0);
+    }
+}
